@@ -125,9 +125,9 @@ func c17RunSeeded(s c17Seeded, keep bool) (hashes []uint64, keys []string, err e
 		opts.MateSinglepointProb = 0
 		pop, err = genetics.NewPopulationRandom(3, 1, 2, false, 0.5, opts)
 	case "multidisc":
-		pop, err = genetics.NewPopulation(multiDiscSeed().Build(), opts)
+		pop, err = genetics.NewPopulation(startGenome("multidisc", multiDiscSeed()), opts)
 	default:
-		pop, err = genetics.NewPopulation(seedByName(s.Start).Build(), opts)
+		pop, err = genetics.NewPopulation(startGenome(s.Start, seedByName(s.Start)), opts)
 	}
 	if err != nil {
 		return nil, nil, err
@@ -204,7 +204,11 @@ func c17RunExperiment(s c17Seeded) (hashes []uint64, err error) {
 	vrand.Seed(s.Seed)
 	ev := &c17Evaluator{fit: s.Fit}
 	exp := experiment.Experiment{Id: 0}
-	err = exp.Execute(opts.NeatContext(), start.Build(), ev, nil)
+	name := "xor"
+	if s.Start == "multidisc" || s.Start == "evolved" || s.Start == "disc" {
+		name = s.Start
+	}
+	err = exp.Execute(opts.NeatContext(), startGenome(name, start), ev, nil)
 	return ev.hashes, err
 }
 
@@ -294,7 +298,20 @@ func c17Garbage() {
 	runtime.GC()
 }
 
+// c17Verbose switches the library's process-wide log level between its default and "debug" with all
+// four log sinks silenced: what is logged must not influence what is evolved.
+func c17Verbose(on bool) {
+	quiet := func(string) {}
+	neat.DebugLog, neat.InfoLog, neat.WarnLog, neat.ErrorLog = quiet, quiet, quiet, quiet
+	if on {
+		neat.LogLevel = neat.LogLevelDebug
+	} else {
+		neat.LogLevel = ""
+	}
+}
+
 func runC17(c *Ctx) {
+	startGenomes = map[string]*genetics.Genome{} // every run of this process starts from the same genome objects
 	scs := c17Scenarios(c.Quick())
 	seeded := c17SeededList(c)
 	// second process first (it is independent of everything below)
@@ -334,7 +351,9 @@ func runC17(c *Ctx) {
 			c17Garbage()
 			oldGC := debug.SetGCPercent(20 + 40*(i%3))
 			oldProcs := runtime.GOMAXPROCS(1 + i%4)
+			c17Verbose(true)
 			h2, k2, err2 := c17RunSeeded(s, true)
+			c17Verbose(false)
 			debug.SetGCPercent(oldGC)
 			runtime.GOMAXPROCS(oldProcs)
 			runs += 3
@@ -444,7 +463,9 @@ func runC17(c *Ctx) {
 		}
 		pass = 1
 		ex.Executions = 0
+		c17Verbose(true) // the second pass runs at log level "debug" (sinks silenced)
 		ex.Run()
+		c17Verbose(false)
 		execs += ex.Executions
 		if ex.Stopped {
 			c.MarkCapped("deadline reached inside a scenario")
@@ -480,12 +501,14 @@ func runC17(c *Ctx) {
 		c.Sample(map[string]interface{}{"seeded_run": seeded[1].String(), "compared": "this process twice (different GOGC / GOMAXPROCS, unrelated evolution in between) and a second process"})
 	}
 	c.States = int64(len(c.distinct))
-	c.Rule = "(i) explorer mode: for every scenario (start genome incl. one with five disconnected sensors and random populations x configuration row x landscape x base policy; four node activators so that the activation roulette is drawn) EVERY execution within 1 deviation of the base policy is run twice in one process (second pass after garbage, a forced GC and an unrelated scenario) and the base executions a third time in a fresh process; the draw trace (kind and bound of every draw) and the bit-exact fingerprint of the population after construction and after each of 6-8 epochs must agree. (ii) real math/rand: seeds {0,1,42,VERIF_SEED}+k*1000003 x start genome x configuration x 10 epochs, run twice in-process (unrelated evolution in between, different GOGC and GOMAXPROCS), once with read-only dumps / verification of the population before every turnover, once in a second process, and twice through Experiment.Execute on a zero-value experiment. states = distinct population fingerprints, transitions = populations produced"
+	c.Rule = "(i) explorer mode: for every scenario (start genome incl. one with five disconnected sensors and random populations x configuration row x landscape x base policy; four node activators so that the activation roulette is drawn) EVERY execution within 1 deviation of the base policy is run twice in one process (second pass after garbage, a forced GC and an unrelated scenario, at log level debug with the sinks silenced; all runs of a process start from the same start genome objects) and the base executions a third time in a fresh process; the draw trace (kind and bound of every draw) and the bit-exact fingerprint of the population after construction and after each of 6-8 epochs must agree. (ii) real math/rand: seeds {0,1,42,VERIF_SEED}+k*1000003 x start genome x configuration x 10 epochs, run twice in-process from the same start genome object (unrelated evolution in between, different GOGC, GOMAXPROCS and log level), once with read-only dumps / verification of the population before every turnover, once in a second process, and twice through Experiment.Execute on a zero-value experiment. states = distinct population fingerprints, transitions = populations produced"
 	c.Assume("Go's per-loop randomisation of map iteration cannot be owned; dependence on it is caught because every execution is repeated (>= 2-3 times)")
 	c.Assume("wall-clock dependence is caught by the repetition as well (the neat packages do not import time)")
 }
 
 func replayC17(c *Ctx, rp *Replay) (bool, string) {
+	startGenomes = map[string]*genetics.Genome{}
+	defer c17Verbose(false)
 	if rp.Scenario == "seeded" {
 		s := c17Seeded{Seed: int64(paramInt(rp, "seed")), Cfg: paramInt(rp, "cfg"), Start: paramStr(rp, "start"), Fit: paramInt(rp, "fit"), Epochs: paramInt(rp, "epochs")}
 		if v, ok := rp.Params["seed"].(float64); ok {
@@ -494,9 +517,16 @@ func replayC17(c *Ctx, rp *Replay) (bool, string) {
 		for k := 0; k < 5; k++ {
 			h1, k1, _ := c17RunSeeded(s, true)
 			c17Garbage()
+			c17Verbose(k%2 == 0)
 			h2, k2, _ := c17RunSeeded(s, true)
+			c17Verbose(false)
 			if hashesString(h1) != hashesString(h2) {
 				return true, "two identically seeded runs differ: " + firstDiff(k1, k2)
+			}
+			e1, _ := c17RunExperiment(s)
+			e2, _ := c17RunExperiment(s)
+			if hashesString(e1) != hashesString(e2) {
+				return true, "two identically seeded Experiment.Execute runs differ"
 			}
 		}
 		return false, s.String()
@@ -505,7 +535,9 @@ func replayC17(c *Ctx, rp *Replay) (bool, string) {
 	for k := 0; k < 5; k++ {
 		a, _ := c17Explorer(c, sc, rp.Answers)
 		c17Garbage()
+		c17Verbose(k%2 == 0)
 		b, _ := c17Explorer(c, sc, rp.Answers)
+		c17Verbose(false)
 		if a.EndHash != b.EndHash || a.TraceSig() != b.TraceSig() {
 			return true, "the same execution run twice differs"
 		}
